@@ -37,7 +37,7 @@
    check and its content oracle (DESIGN.md, C11); in the model all access paths are the same
    function. *)
 From Coq Require Import ZArith List Bool Lia.
-From Cntgs Require Import Base Layout Mem Vector Proxy World Spec Rep CompareThm RunsThm ElemThm CmpContent AssignThm SwapThm MoveThm SameVec CompareThm RefUpdate.
+From Cntgs Require Import Base Layout Mem Vector Proxy World Spec Rep CompareThm RunsThm ElemThm CmpContent AssignThm SwapThm MoveThm SameVec CompareThm RefUpdate Refine NtRefine.
 Import ListNotations.
 Local Open Scope Z_scope.
 
@@ -262,3 +262,26 @@ Proof.
   - exact (self_swap_refines_identity L Hwf v l offs i R).
 Qed.
 Print Assumptions C11_self_assignment_keeps_the_list.
+
+(* lists without a VaryingSize parameter: all elements of a vector have the same field sizes, so
+   after EVERY valid history from construction any two different elements can be assigned to /
+   swapped with each other through references, and the vector then represents the updated /
+   exchanged list *)
+Theorem C11_reference_assignment_and_swap_after_every_history : forall L cap budget fixed aid junk bid tbid h,
+  wf_plist L = true -> has_varying L = false -> 0 <= cap -> Forall (fun c => 0 <= c) fixed ->
+  let v0 := fst (mkvec L cap budget fixed aid junk bid tbid) in
+  let s0 := {| s_cap := cap; s_elems := [] |} in
+  shist_valid L (fixed_counts L fixed) s0 h -> nt_hist_ok L s0 h ->
+  let v := vrun L junk v0 h in
+  let l := s_elems (srun s0 h) in
+  forall i j, (i < length l)%nat -> (j < length l)%nat -> i <> j ->
+  Rep L (fst (fst (ref_assign false L true v (Z.of_nat i) v (Z.of_nat j)))) (upd i (nth j l []) l) /\
+  Rep L (fst (fst (ref_swap L true v (Z.of_nat i) v (Z.of_nat j)))) (upd i (nth j l []) (upd j (nth i l []) l)).
+Proof.
+  intros L cap budget fixed aid junk bid tbid h Hwf Hv Hcap Hfx. cbv zeta. intros Hh Hn i j Hi Hj Hij.
+  destruct (rep_every_history_nt L cap budget fixed aid junk bid tbid h Hwf Hcap Hfx Hh Hn) as [offs R].
+  split; exists offs.
+  - exact (ref_assign_refines_update_fixed L Hwf Hv _ _ offs i j R Hi Hj Hij).
+  - exact (ref_swap_refines_exchange_fixed L Hwf Hv _ _ offs i j R Hi Hj Hij).
+Qed.
+Print Assumptions C11_reference_assignment_and_swap_after_every_history.
